@@ -158,4 +158,22 @@ def crashThenRecover (p : Program) (c : Cfg) (i k : Nat) : Option (Bool × COut)
     let r := runCmdB p w cmd k
     some (r.2.2, (recover p c r.1).2)
 
+
+/-- a recovery that is itself interrupted: the user issues the workflow again and the process dies once more, in step `i2` after
+    `k2` mutations; then the user recovers again -/
+def recoverTwice (p : Program) (c : Cfg) (w : World) (i2 k2 : Nat) : COut :=
+  let created := match loadObj p w.cdisk with | some o => o.bits.created | none => false
+  let w0 : World := if created then w else { w with cdisk := {} }
+  let w1 := (runCmds p w0 ((workflow c).take i2)).1
+  match (workflow c)[i2]? with
+  | none => .refused
+  | some cmd => (recover p c (runCmdB p w1 cmd k2).1).2
+
+/-- crash in step `i` (budget `k`), crash again while recovering (step `i2`, budget `k2`), recover -/
+def crashTwiceThenRecover (p : Program) (c : Cfg) (i k i2 k2 : Nat) : COut :=
+  let w := (runCmds p {} ((workflow c).take i)).1
+  match (workflow c)[i]? with
+  | none => .refused
+  | some cmd => recoverTwice p c (runCmdB p w cmd k).1 i2 k2
+
 end SSEPy.ClientIR
